@@ -59,14 +59,14 @@ def _abort_cases(rng, tier):
   scheduler; judged by the C04 driver: teardown of entered groups runs, is not cancelled, precedes plug tearDown)"""
   from harness.props import c04
   out = []
-  for name in ('group', 'nested', 'subtest', 'plugs', 'tdrepeat'):
+  for name in ('group', 'nested', 'subtest', 'plugs', 'tdrepeat', 'stuck'):
     n = c04._length(name, 'thread')
     stride = 3 if tier == 'quick' else 1
     for k in range(0, n + 3, stride):
       out.append({'abort': {'prog': name, 'ks': [k], 'mode': 'thread'}, 'src': 'abort/' + name})
   for i in range(60 if tier == 'quick' else 1500):
     r = rng.derive('ab%d' % i)
-    name = r.choice(['group', 'nested', 'subtest', 'plugs', 'tdrepeat'])
+    name = r.choice(['group', 'nested', 'subtest', 'plugs', 'tdrepeat', 'stuck'])
     out.append({'abort': {'prog': name, 'ks': [r.randrange(0, c04._length(name, 'thread'))], 'mode': 'thread',
                           'rseed': r.getrandbits(32), 'switch': r.choice([0.1, 0.3])}, 'src': 'abort-random/' + name})
   return out
